@@ -79,3 +79,201 @@ Qed.
 
 Lemma order_facts : order_facts_ok = true.
 Proof. vm_compute. reflexivity. Qed.
+
+(* ---- (1b) the structured sync model -------------------------------------------------- *)
+Open Scope Z_scope.
+
+Lemma existsb_map {A B} (p : B -> bool) (g : A -> B) l : existsb p (map g l) = existsb (fun x => p (g x)) l.
+Proof. induction l; simpl; auto. now rewrite IHl. Qed.
+
+Lemma existsb_filter {A} (p q : A -> bool) l : existsb p (filter q l) = existsb (fun x => q x && p x) l.
+Proof. induction l as [|a l IH]; simpl; auto. destruct (q a); simpl; now rewrite IH. Qed.
+
+Lemma existsb_ext' {A} (p q : A -> bool) l : (forall x, In x l -> p x = q x) -> existsb p l = existsb q l.
+Proof. induction l as [|a l IH]; simpl; intros H; auto. rewrite (H a), IH; auto. Qed.
+
+(* any performed read that fails makes SyncMetas return an error *)
+Lemma sync_fails conc f b r : performed conc f b r = true -> f r = true -> sync conc f b = None.
+Proof.
+  intros Hp Hf. unfold sync.
+  destruct (f RList) eqn:EL; auto.
+  destruct (conc && existsb (fun x => f (RExists (sid x))) b) eqn:EE; auto.
+  destruct (existsb (del_err f) (filter (loaded f) b)) eqn:ED; auto.
+  destruct (existsb (noc_err f) (after_dedup f b)) eqn:EN; auto.
+  destruct (existsb (meta_err f) b) eqn:EM; auto.
+  exfalso. destruct r as [|i|i|i|i]; simpl in Hp.
+  - congruence.
+  - apply andb_true_iff in Hp. destruct Hp as [Hc Hx]. subst conc. simpl in EE.
+    apply existsb_exists in Hx. destruct Hx as (x & Hx & E). apply Z.eqb_eq in E. subst i.
+    assert (existsb (fun x => f (RExists (sid x))) b = true) by (apply existsb_exists; eauto). congruence.
+  - apply existsb_exists in Hp. destruct Hp as (x & Hx & E). apply andb_true_iff in E. destruct E as [E Hm].
+    apply Z.eqb_eq in E. subst i.
+    assert (existsb (meta_err f) b = true); [|congruence].
+    apply existsb_exists. exists x. split; auto. unfold meta_err, has_meta in *. destruct (smeta x); auto; discriminate.
+  - apply existsb_exists in Hp. destruct Hp as (x & Hx & E). apply andb_true_iff in E. destruct E as [E Hl].
+    apply Z.eqb_eq in E. subst i.
+    assert (existsb (del_err f) (filter (loaded f) b) = true); [|congruence].
+    apply existsb_exists. exists x. split; [apply filter_In; auto|]. unfold del_err. now rewrite Hf.
+  - unfold noc_read in Hp. rewrite ED in Hp.
+    apply existsb_exists in Hp. destruct Hp as (x & Hx & E). apply Z.eqb_eq in E. subst i.
+    assert (existsb (noc_err f) (after_dedup f b) = true); [|congruence].
+    apply existsb_exists. exists x. split; auto. unfold noc_err. now rewrite Hf.
+Qed.
+
+Lemma iteration2_no_writes conc cleaner f b r work :
+  performed conc f b r = true -> f r = true -> iteration2 conc cleaner f b work = [].
+Proof. intros Hp Hf. unfold iteration2. now rewrite (sync_fails conc f b r Hp Hf). Qed.
+
+(* a view is produced only when no performed read failed *)
+Lemma sync_some_no_fault conc f b v r : sync conc f b = Some v -> performed conc f b r = true -> f r = false.
+Proof.
+  intros Hs Hp. destruct (f r) eqn:E; auto. rewrite (sync_fails conc f b r Hp E) in Hs. discriminate.
+Qed.
+
+(* ... and it lists only blocks whose meta.json was read successfully and that the
+   deletion-mark filter did not hide *)
+Lemma sync_view_sound conc f b v i : sync conc f b = Some v -> In i (v_metas v) ->
+  exists x, In x b /\ sid x = i /\ smeta x = MOk /\ f (RMeta i) = false /\ del_hidden x = false.
+Proof.
+  unfold sync. destruct (f RList); [discriminate|].
+  destruct (conc && _); [discriminate|].
+  destruct (existsb (del_err f) _); [discriminate|].
+  destruct (existsb (noc_err f) _); [discriminate|].
+  destruct (existsb (meta_err f) b); [discriminate|].
+  intros H. inversion H; subst; clear H. simpl. intros Hi.
+  apply in_map_iff in Hi. destruct Hi as (x & <- & Hx).
+  unfold after_dedup in Hx. apply filter_In in Hx. destruct Hx as [Hx _].
+  unfold after_del in Hx. apply filter_In in Hx. destruct Hx as [Hxb Hc].
+  apply andb_true_iff in Hc. destruct Hc as [Hl Hh]. exists x. repeat split; auto.
+  - unfold loaded in Hl. destruct (smeta x); auto; discriminate.
+  - unfold loaded in Hl. destruct (smeta x); try discriminate. now apply negb_true_iff in Hl.
+  - now apply negb_true_iff in Hh.
+Qed.
+
+(* faults that agree on the meta and deletion-mark reads lead to the same later stages *)
+Lemma loaded_ext f g x : (forall i, f (RMeta i) = g (RMeta i)) -> loaded f x = loaded g x.
+Proof. intros H. unfold loaded. now rewrite H. Qed.
+
+Lemma after_dedup_ext f g b : (forall i, f (RMeta i) = g (RMeta i)) -> after_dedup f b = after_dedup g b.
+Proof.
+  intros H. unfold after_dedup, after_del.
+  assert (E : filter (fun x => loaded f x && negb (del_hidden x)) b = filter (fun x => loaded g x && negb (del_hidden x)) b).
+  { apply filter_ext. intros x. now rewrite (loaded_ext f g x H). }
+  now rewrite E.
+Qed.
+
+Lemma noc_read_ext f g b : (forall i, f (RMeta i) = g (RMeta i)) -> (forall i, f (RDel i) = g (RDel i)) ->
+  noc_read f b = noc_read g b.
+Proof.
+  intros Hm Hd. unfold noc_read.
+  assert (E1 : filter (loaded f) b = filter (loaded g) b) by (apply filter_ext; intros; now apply loaded_ext).
+  assert (E2 : existsb (del_err f) (filter (loaded g) b) = existsb (del_err g) (filter (loaded g) b)).
+  { apply existsb_ext'. intros x _. unfold del_err. now rewrite Hd. }
+  rewrite E1, E2, (after_dedup_ext f g b Hm). reflexivity.
+Qed.
+
+Lemma rid_eqb_refl r : rid_eqb r r = true.
+Proof. destruct r; simpl; auto using Z.eqb_refl. Qed.
+
+(* every single fault position of the sync: failing exactly one of the reads a
+   fault-free sync performs makes the sync fail *)
+Lemma single_fault conc b r : In r (read_order conc b) -> sync conc (only r) b = None.
+Proof.
+  intros Hin. apply (sync_fails conc (only r) b r); [|apply rid_eqb_refl].
+  unfold read_order in Hin. destruct Hin as [<-|Hin]; [reflexivity|].
+  apply in_app_or in Hin. destruct Hin as [Hin|Hin].
+  { destruct conc; [|contradiction]. apply in_map_iff in Hin. destruct Hin as (x & <- & Hx).
+    simpl. apply existsb_exists. exists x. split; auto. apply Z.eqb_refl. }
+  apply in_app_or in Hin. destruct Hin as [Hin|Hin].
+  { apply in_map_iff in Hin. destruct Hin as (x & <- & Hx). apply filter_In in Hx. destruct Hx as [Hx Hm].
+    simpl. apply existsb_exists. exists x. split; auto. now rewrite Z.eqb_refl. }
+  apply in_app_or in Hin. destruct Hin as [Hin|Hin].
+  { apply in_map_iff in Hin. destruct Hin as (x & <- & Hx). apply filter_In in Hx. destruct Hx as [Hx Hl].
+    simpl. apply existsb_exists. exists x. split; auto. rewrite Z.eqb_refl. simpl.
+    rewrite (loaded_ext _ (fun _ => false) x); auto. }
+  { apply in_map_iff in Hin. destruct Hin as (x & <- & Hx).
+    simpl. rewrite (noc_read_ext _ (fun _ => false) b); auto.
+    apply existsb_exists. exists x. split; auto. apply Z.eqb_refl. }
+Qed.
+
+Lemma single_fault_no_writes conc cleaner b r work :
+  In r (read_order conc b) -> iteration2 conc cleaner (only r) b work = [].
+Proof. intros H. unfold iteration2. now rewrite (single_fault conc b r H). Qed.
+
+(* the trace view (part 1) of the structured sync: the sync fails exactly when its
+   trace contains a failing read *)
+Lemma sync_trace conc f b : is_none (sync conc f b) = sync_error (trace conc f b).
+Proof.
+  assert (EL : read_fails (KList, if f RList then Transient else Found) = f RList) by (destruct (f RList); reflexivity).
+  assert (EX : existsb read_fails (@map bstate read (fun x => (KList, if f (RExists (sid x)) then Transient else if has_meta x then Found else NotFound)) b)
+               = existsb (fun x => f (RExists (sid x))) b).
+  { rewrite existsb_map. apply existsb_ext'. intros x _.
+    destruct (f (RExists (sid x))); auto. destruct (has_meta x); auto. }
+  assert (EM : existsb read_fails (@map bstate read (fun x => (KMeta, meta_outcome f x)) (filter has_meta b)) = existsb (meta_err f) b).
+  { rewrite existsb_map, existsb_filter. apply existsb_ext'. intros x _. unfold meta_outcome, meta_err, has_meta, read_fails.
+    destruct (smeta x), (f (RMeta (sid x))); reflexivity. }
+  assert (ED : existsb read_fails (@map bstate read (fun x => (KDelMark, del_outcome f x)) (filter (loaded f) b)) = existsb (del_err f) (filter (loaded f) b)).
+  { rewrite existsb_map. apply existsb_ext'. intros x _. unfold del_outcome, del_err, read_fails. destruct (f (RDel (sid x))), (sdel x); reflexivity. }
+  assert (EN : existsb read_fails (@map bstate read (fun x => (KNoCompact, noc_outcome f x)) (noc_read f b)) = existsb (noc_err f) (noc_read f b)).
+  { rewrite existsb_map. apply existsb_ext'. intros x _. unfold noc_outcome, noc_err, read_fails. destruct (f (RNoc (sid x))), (snoc x); reflexivity. }
+  assert (Econs : forall (a : read) l, existsb read_fails (a :: l) = read_fails a || existsb read_fails l) by reflexivity.
+  unfold sync_error.
+  destruct conc;
+    [ change (trace true f b) with ((KList, if f RList then Transient else Found)
+        :: @map bstate read (fun x => (KList, if f (RExists (sid x)) then Transient else if has_meta x then Found else NotFound)) b
+        ++ @map bstate read (fun x => (KMeta, meta_outcome f x)) (filter has_meta b)
+        ++ @map bstate read (fun x => (KDelMark, del_outcome f x)) (filter (loaded f) b)
+        ++ @map bstate read (fun x => (KNoCompact, noc_outcome f x)) (noc_read f b))
+    | change (trace false f b) with ((KList, if f RList then Transient else Found)
+        :: @map bstate read (fun x => (KMeta, meta_outcome f x)) (filter has_meta b)
+        ++ @map bstate read (fun x => (KDelMark, del_outcome f x)) (filter (loaded f) b)
+        ++ @map bstate read (fun x => (KNoCompact, noc_outcome f x)) (noc_read f b)) ];
+    rewrite Econs, ?existsb_app, EL, ?EX, EM, ED, EN; unfold sync, noc_read; cbn [andb].
+  - destruct (f RList); simpl; auto.
+    destruct (existsb (fun x => f (RExists (sid x))) b); simpl; auto.
+    destruct (existsb (del_err f) (filter (loaded f) b)); simpl; [now rewrite orb_true_r|].
+    destruct (existsb (noc_err f) (after_dedup f b)); simpl; [now rewrite orb_true_r|].
+    destruct (existsb (meta_err f) b); simpl; auto.
+  - destruct (f RList); simpl; auto.
+    destruct (existsb (del_err f) (filter (loaded f) b)); simpl; [now rewrite orb_true_r|].
+    destruct (existsb (noc_err f) (after_dedup f b)); simpl; [now rewrite orb_true_r|].
+    destruct (existsb (meta_err f) b); simpl; auto.
+Qed.
+
+(* non-vacuity: without faults and without unexpected versions the sync succeeds *)
+Definition well_versioned (x : bstate) : Prop :=
+  smeta x <> MBadVersion /\ sdel x <> DBadVersion /\ snoc x <> NBadVersion.
+
+Lemma sync_succeeds conc b : Forall well_versioned b -> exists v, sync conc no_faults b = Some v.
+Proof.
+  intros Hw. rewrite Forall_forall in Hw. unfold sync, no_faults. cbn [andb].
+  assert (E1 : (conc && existsb (fun _ : bstate => false) b) = false).
+  { destruct conc; simpl; auto. induction b; simpl; auto. apply IHb. intros x Hx. apply Hw. now right. }
+  rewrite E1.
+  assert (E2 : existsb (del_err (fun _ => false)) (filter (loaded (fun _ => false)) b) = false).
+  { apply not_true_is_false. intros H. apply existsb_exists in H. destruct H as (x & Hx & He).
+    apply filter_In in Hx. destruct Hx as [Hx _]. destruct (Hw x Hx) as (_ & Hd & _).
+    unfold del_err in He. simpl in He. destruct (sdel x); try discriminate. congruence. }
+  rewrite E2.
+  assert (E3 : existsb (noc_err (fun _ => false)) (after_dedup (fun _ => false) b) = false).
+  { apply not_true_is_false. intros H. apply existsb_exists in H. destruct H as (x & Hx & He).
+    unfold after_dedup in Hx. apply filter_In in Hx. destruct Hx as [Hx _].
+    unfold after_del in Hx. apply filter_In in Hx. destruct Hx as [Hx _]. destruct (Hw x Hx) as (_ & _ & Hn).
+    unfold noc_err in He. simpl in He. destruct (snoc x); try discriminate. congruence. }
+  rewrite E3.
+  assert (E4 : existsb (meta_err (fun _ => false)) b = false).
+  { apply not_true_is_false. intros H. apply existsb_exists in H. destruct H as (x & Hx & He).
+    destruct (Hw x Hx) as (Hm & _ & _). unfold meta_err in He. destruct (smeta x); try discriminate. congruence. }
+  rewrite E4. eauto.
+Qed.
+
+Lemma view_is_complete conc f b v :
+  sync conc f b = Some v ->
+  (forall r, performed conc f b r = true -> f r = false) /\
+  (forall i, In i (v_metas v) ->
+     exists x, In x b /\ sid x = i /\ smeta x = MOk /\ f (RMeta i) = false /\ del_hidden x = false).
+Proof.
+  intros H. split.
+  - intros r. exact (sync_some_no_fault conc f b v r H).
+  - intros i. exact (sync_view_sound conc f b v i H).
+Qed.
